@@ -1,4 +1,4 @@
-import CloakModel.Props.C12
+import CloakModel.Props.C12Close
 import CloakModel.Lemmas.LocksCore
 import CloakModel.Gen.MuxLocks
 
